@@ -107,7 +107,8 @@ class Transpose(Contract):
 
 
 class SwapAxes(Contract):
-    """swapaxes(a, b): the transposition of dimensions a and b (names or positions), everything else as Transpose.  [C10]"""
+    """swapaxes(a, b): the transposition of dimensions a and b (names, positions, positions counted from the end, or a mix),
+    everything else as Transpose.  [C10]"""
     target = "dimarray.core.reshape:swapaxes"
     props = ("C10",)
     inlined = ("transpose (own contract: Transpose)",)
@@ -116,7 +117,8 @@ class SwapAxes(Contract):
         for rank in (1, 2, 3) if tier == "quick" else (1, 2, 3, 4):
             for a in range(rank):
                 for b in range(rank):
-                    for by in ("names", "positions", "mixed"):
+                    # negative: positions counted from the end (NumPy's spelling); neg-pos: one of each
+                    for by in ("names", "positions", "mixed") + (("negative", "neg-pos") if rank > 1 else ()):
                         yield {"name": "r%d-%d%d-%s" % (rank, a, b, by), "rank": rank, "a": a, "b": b, "by": by}
 
     def bound_lengths(self, case):
@@ -127,6 +129,8 @@ class SwapAxes(Contract):
 
     def call(self, fn, env):
         c = env["case"]
+        if c["by"] in ("negative", "neg-pos"):
+            return env["arr"].swapaxes(c["a"] - c["rank"], c["b"] - c["rank"] if c["by"] == "negative" else c["b"])
         a = "x%d" % c["a"] if c["by"] in ("names", "mixed") else c["a"]
         b = "x%d" % c["b"] if c["by"] == "names" else c["b"]
         return env["arr"].swapaxes(a, b)
